@@ -45,6 +45,8 @@ pub enum Node {
     GroupExists(usize),
     /// scoped flag group `(?on-off:body)`; flags are letters out of "imsxU"
     Flags(String, String, Box<Node>),
+    /// inline flag setting `(?on-off)`, in effect until the end of the enclosing group
+    SetFlags(String, String),
 }
 
 use Node::*;
@@ -288,6 +290,15 @@ impl<'o> P<'o> {
                 let r = self.cond_ref(*g);
                 self.toks.push(format!("(?({}))", r));
             }
+            SetFlags(on, off) => {
+                let mut s = format!("(?{}", on);
+                if !off.is_empty() {
+                    s.push('-');
+                    s.push_str(off);
+                }
+                s.push(')');
+                self.toks.push(s);
+            }
             Flags(on, off, c) => {
                 let mut s = format!("(?{}", on);
                 if !off.is_empty() {
@@ -363,7 +374,7 @@ impl Node {
     /// conservative: may match the empty string
     pub fn nullable(&self) -> bool {
         match self {
-            Empty | Assert(_) | Look(..) | KeepOut | ContG | GroupExists(_) | Backref(_) => true,
+            Empty | Assert(_) | Look(..) | KeepOut | ContG | GroupExists(_) | Backref(_) | SetFlags(..) => true,
             Lit(_) | Any | AnyNl | Class(..) | Perl(_) => false,
             Concat(v) => v.iter().all(|n| n.nullable()),
             Alt(v) => v.iter().any(|n| n.nullable()),
@@ -492,7 +503,32 @@ impl Node {
 
     /// quantifier targets must be repeatable for the crate's parser
     pub fn repeatable(&self) -> bool {
-        !matches!(self, Empty | Assert(_) | Look(..))
+        !matches!(self, Empty | Assert(_) | Look(..) | SetFlags(..))
+    }
+
+    /// F5 class: an inline flag setting whose nearest enclosing parenthesis is a capturing group, an
+    /// atomic group, a look-around or a conditional (the crate restores flags only at the end of
+    /// `(?flags:..)` / `(?:..)` groups, so such a setting leaks into the rest of the pattern)
+    pub fn has_leaky_inline_flag(&self) -> bool {
+        fn direct(n: &Node) -> bool {
+            // does the body of a paren-opening construct contain a SetFlags not shielded by a printed (?: ... )?
+            match n {
+                SetFlags(..) => true,
+                Concat(v) | Alt(v) => v.iter().any(|c| match c {
+                    SetFlags(..) => true,
+                    // an Alt directly inside a Concat is printed with its own (?:..), a Concat inside an Alt is not
+                    Concat(_) => direct(c),
+                    _ => false,
+                }),
+                _ => false,
+            }
+        }
+        match self {
+            Group(c) | Atomic(c) | Look(c, ..) => direct(c) || c.has_leaky_inline_flag(),
+            CondGroup(_, y, no) => direct(y) || direct(no) || y.has_leaky_inline_flag() || no.has_leaky_inline_flag(),
+            CondExpr(c, y, no) => direct(c) || direct(y) || direct(no) || c.has_leaky_inline_flag() || y.has_leaky_inline_flag() || no.has_leaky_inline_flag(),
+            _ => self.children().iter().any(|c| c.has_leaky_inline_flag()),
+        }
     }
 }
 
